@@ -361,3 +361,40 @@ Proof.
   - apply secondary_probs_eval. exact Hl.
   - intros i c. apply soft_renumbering. exact Hp.
 Qed.
+
+(* =========================================================================================== *)
+(** * RandomSurferOperator._matvec (Gen/NpRso.v): the PageRank operator commutes with the renumbering *)
+From SKN Require Import Gen.NpRso Proofs.NpRsoProofs.
+
+Lemma nrow_pmat n p A j i : perm_on n p -> nrow n (pmat p A) j i = nrow n A (p j) (p i).
+Proof.
+  intros Hp. unfold nrow, pmat. f_equal. f_equal.
+  exact (rsum_reindex n p (fun j' => Rabs (A (p j) j')) Hp).
+Qed.
+
+Lemma has_out_pmat n p A j : perm_on n p -> has_out n (pmat p A) j = has_out n A (p j).
+Proof.
+  intros Hp. unfold has_out, pmat. rewrite <- !rsum_lsum.
+  rewrite (rsum_reindex n p (fun k => A (p j) k * 1) Hp). reflexivity.
+Qed.
+
+Lemma rso_renumbering n p A s alpha x i : perm_on n p ->
+  rso n (pmat p A) (fun i0 => s (p i0)) alpha (fun i0 => x (p i0)) i = rso n A s alpha x (p i).
+Proof.
+  intros Hp. unfold rso. f_equal.
+  - rewrite <- !rsum_lsum. rewrite <- (rsum_reindex n p (fun j => alpha * nrow n A j (p i) * x j) Hp).
+    rewrite !rsum_lsum. apply lsum_ext. intros j _. rewrite (nrow_pmat n p A j i Hp). reflexivity.
+  - f_equal. rewrite <- !rsum_lsum. rewrite <- (rsum_reindex n p (fun j => (1 - alpha * has_out n A j) * x j) Hp).
+    rewrite !rsum_lsum. apply lsum_ext. intros j _. rewrite (has_out_pmat n p A j Hp). reflexivity.
+Qed.
+
+Theorem source_rso_renumbering n p A s x alpha :
+  perm_on n p ->
+  exists f' f,
+    rvdenote (env_rso n (pmat p A) (fun i => s (p i)) (fun i => x (p i)) alpha) src_rso_matvec = Some (WV n f') /\
+    rvdenote (env_rso n A s x alpha) src_rso_matvec = Some (WV n f) /\
+    forall i, f' i = f (p i).
+Proof.
+  intros Hp. do 2 eexists. split; [apply src_rso_denotes|]. split; [apply src_rso_denotes|].
+  intros i. exact (rso_renumbering n p A s alpha x i Hp).
+Qed.
